@@ -124,6 +124,7 @@ def pGoVal : Nat → Tok → Option (GoVal × Tok)
       | k :: t => do let n ← k.toNat?; let t ← skipF1s n t; pure (.other "[][]float64", t)
       | _ => none
     | "PT" => some (.other "geom.Point", t.drop 2)
+    | "jn" => some (.other "json.Number", t.drop 1)
     | _ => none
   | _+1, [] => none
 def pGoVals : Nat → Nat → Tok → Option (List GoVal × Tok)
@@ -148,23 +149,36 @@ def skipF1s : Nat → Tok → Option Tok
   | _+1, [] => none
 end
 
+mutual
+/-- the caller's value holds a NaN/±Inf float64 leaf -/
+def hasNonFinite : GoVal → Bool
+  | .num b => !Spec.finite b
+  | .arr xs => hasNonFiniteL xs
+  | .obj _ vs => hasNonFiniteL vs
+  | _ => false
+def hasNonFiniteL : List GoVal → Bool
+  | [] => false
+  | v :: vs => hasNonFinite v || hasNonFiniteL vs
+end
+
 structure Case where
   kind : String
   family : Family
   size : Nat
   pred : Pred
+  nonFiniteInput : Bool := false
 
 def parseCase (lhs : Tok) : Option Case :=
   match lhs with
-  | ["wkb", h] => (hexToBytes (h.drop 1).toString).map fun bs => ⟨"wkb", .wkb, bs.length, predWkb bs⟩
-  | ["wkbr", _, h] => (hexToBytes (h.drop 1).toString).map fun bs => ⟨"wkbr", .wkb, bs.length, predWkb bs⟩
+  | ["wkb", h] => (hexToBytes (h.drop 1).toString).map fun bs => ⟨"wkb", .wkb, bs.length, predWkb bs, false⟩
+  | ["wkbr", _, h] => (hexToBytes (h.drop 1).toString).map fun bs => ⟨"wkbr", .wkb, bs.length, predWkb bs, false⟩
   | ["hex", h] => (hexToBytes (h.drop 1).toString).map fun bs =>
-      ⟨"hex", .hex, bs.length, predHex (bs.map fun b => Char.ofNat b.toNat)⟩
-  | ["json", h] => (hexToBytes (h.drop 1).toString).map fun bs => ⟨"json", .json, bs.length, predJ (decodeJSON bs)⟩
-  | ["gj", "NILPTR"] => some ⟨"gj", .value, 1, predJ (fromGeoJSON none)⟩
+      ⟨"hex", .hex, bs.length, predHex (bs.map fun b => Char.ofNat b.toNat), false⟩
+  | ["json", h] => (hexToBytes (h.drop 1).toString).map fun bs => ⟨"json", .json, bs.length, predJ (decodeJSON bs), false⟩
+  | ["gj", "NILPTR"] => some ⟨"gj", .value, 1, predJ (fromGeoJSON none), false⟩
   | "gj" :: t :: v =>
     match hexStrTok (t.drop 1).toString, pGoVal 100 v with
-    | some typ, some (c, _) => some ⟨"gj", .value, c.size, predJ (fromGeoJSON (some (typ, c)))⟩
+    | some typ, some (c, _) => some ⟨"gj", .value, c.size, predJ (fromGeoJSON (some (typ, c))), hasNonFinite c⟩
     | _, _ => none
   | _ => none
 
@@ -279,7 +293,8 @@ def judgeLine (line : String) : String :=
           let wf := if c.family == .json || c.family == .value then wellFormedJson g else wellFormed g
           if !wf then some "result-not-well-formed"
           else if c.family == .value then
-            (if o.res.all (reStableValue g) && !o.res.isEmpty then none else some "reencode-unstable")
+            (if o.res.all (reStableValue c.nonFiniteInput g) && !o.res.isEmpty then none
+             else some (if jsonEncodable g then "reencode-unstable" else "reencode-unstable result-has-non-finite-coordinate-not-present-in-the-input"))
           else if o.res.all (reStable g) && !o.res.isEmpty then none else some "reencode-unstable"
       match specGeom with
       | some why => s!"SPEC {cls} {why}"
